@@ -142,7 +142,14 @@ func (s Scenario) Taskfile() string {
 	}
 	b.WriteString("]\n")
 	if s.Cancel {
-		b.WriteString("  zz:\n    cmds:\n      - cmd: \"sleep 0.4; exit 3\"\n")
+		if s.Mode.Style == "group" {
+			// the sibling fails once the first command has written everything (marker file)
+			b.WriteString("  zz:\n    cmds:\n      - cmd: \"until [ -f .written ]; do sleep 0.05; done; exit 3\"\n")
+		} else {
+			// prefixed: the first write of the first command is held by the harness until everything else is
+			// parked, i.e. until this sibling has failed - the order does not depend on timing
+			b.WriteString("  zz:\n    cmds:\n      - cmd: \"sleep 0.3; exit 3\"\n")
+		}
 	}
 	for ci, c := range s.Cmds {
 		var parts []string
@@ -158,7 +165,7 @@ func (s Scenario) Taskfile() string {
 			parts = append(parts, "printf '"+txt+"'")
 		}
 		if s.Cancel && ci == 0 {
-			parts = append(parts, "sleep 1.2") // outlives the failing sibling (0.4 s); ends by itself even where SIGINT is ignored
+			parts = append(parts, "touch .written", "sleep 0.7") // outlives the failing sibling, which waits for the marker; ends by itself even where SIGINT is ignored
 		} else if c.Fail {
 			parts = append(parts, "exit 1")
 		}
